@@ -27,7 +27,7 @@ import impl
 import specnorm
 
 ID = 'C03'
-EXTRA_MODULES = ['Mistletoe.Proofs.Compose', 'Mistletoe.Proofs.ComposeLists2', 'Mistletoe.Proofs.ComposeCode', 'propsdriver']
+EXTRA_MODULES = ['Mistletoe.Proofs.Compose', 'Mistletoe.Proofs.ComposeLists2', 'Mistletoe.Proofs.ComposeCode', 'Mistletoe.Proofs.ComposeTable', 'propsdriver']
 RULE = ('trees of up to depth 4 / ~40 blocks (paragraphs, ATX and setext headings, thematic breaks, fenced and indented code, '
         'block quotes, tight and loose bullet/ordered lists, tables, HTML blocks, link definitions; emphasis, strong, '
         'strikethrough, code spans, inline/reference links, images, autolinks, hard and soft breaks, escapes, character '
@@ -40,8 +40,9 @@ ASSUMPTIONS = ['spellings are restricted to those for which the specification un
                'admissibility rules)']
 PARTIAL = ['proved for the fragment paragraphs / ATX headings / thematic breaks / nested block quotes with inert text, bullet and ordered '
            'lists nested to any depth (Props/C03_Lists.lean), fenced code blocks (any info string and content, at top level, in quotes '
-           'and in list items) and setext headings (at top level and in list items; Props/C03_Code.lean); every other construct of the '
-           'property (indented code, tables, HTML blocks, link definitions, emphasis, strong, strikethrough, code spans, links, images, '
+           'and in list items), setext headings (at top level and in list items; Props/C03_Code.lean), tables (alignments, short and long '
+           'rows, with and without outer pipes) and indented code blocks (Props/C03_Tables.lean); every other construct of the '
+           'property (HTML blocks, link definitions, emphasis, strong, strikethrough, code spans, links, images, '
            'autolinks, hard breaks, escapes, character references, raw HTML) and the free spellings outside the fragment (list marker '
            'indentation, lazy lines, omitted blank lines, tabs) are decided by exploration with the tree generator and its independent oracle']
 
@@ -303,7 +304,90 @@ def theorem_unit_code(ctx):
                      'setext heading)' % (len(forests3), n_ok, n_f, n_s))
 
 
+CELLS = ['alpha', 'b c', 'x', 'AT&T', '3.14', 'a_b', '"q"', 'é', 'k=v', '*', '50%', '(p)', 'end.', '']
+
+
+def _row(rng, n, lead=None, short_long=False):
+    k = n
+    if short_long:
+        k = rng.choice([n, n, max(1, n - 1), n + 1])
+    cells = [' ' * rng.randint(0, 2) + (rng.choice(CELLS) or ' ') + ' ' * rng.randint(0, 2) for _ in range(k)]
+    cells = [c if c.strip() or c else ' ' for c in cells]
+    lead = rng.random() < 0.7 if lead is None else lead
+    trail = lead if rng.random() < 0.8 else not lead
+    if not lead:
+        cells[0] = cells[0].lstrip(' ') or 'x'
+    if not trail:
+        cells[-1] = cells[-1].rstrip(' ') or 'y'
+    return {'lead': lead, 'trail': trail, 'cells': cells}
+
+
+def frag_tree4(rng, depth, in_quote=False, first_in_item=False):
+    """a tree of the fragment with tables and indented code blocks (Props/C03_Tables.lean)"""
+    r = rng.random()
+    if r < 0.2:
+        n = rng.randint(1, 3)
+        lead = rng.random() < 0.7
+        dcells = [[rng.randint(0, 2), rng.random() < 0.4, rng.choice([1, 3, 3, 5]), rng.random() < 0.4, rng.randint(0, 2)] for _ in range(n)]
+        return {'k': 'table', 'hdr': _row(rng, n, lead), 'del': {'lead': lead or n == 1, 'trail': lead or n == 1, 'cells': dcells},
+                'rows': [_row(rng, n, None, True) for _ in range(rng.randint(0, 3))]}
+    if r < 0.32 and not first_in_item:
+        body = [rng.choice(['code', 'x = 1', '  more', '*not em*', '# h', '- i', '> q', '| a |']) for _ in range(rng.randint(1, 3))]
+        lines = []
+        for i, b in enumerate(body):
+            lines.append('    ' + b + '\n')
+            if i + 1 < len(body) and rng.random() < 0.25:
+                lines.append(rng.choice(['\n', '\n', '  \n', '      \n']) if depth == 0 and not in_quote else '\n')
+        return {'k': 'icode', 'lines': lines}
+    t = frag_tree3(rng, 9 if depth >= 3 else depth, in_quote)
+    # re-generate the containers with trees of this fragment
+    if t['k'] == 'quote':
+        t['kids'] = siblings4(rng, depth + 1, in_quote=True)
+    elif t['k'] == 'list' and t['loose']:
+        t['items'] = [siblings4(rng, depth + 1, first_para=rng.random() < 0.5, in_quote=in_quote, in_item=True) for _ in t['items']]
+        if len(t['items']) == 1 and len(t['items'][0]) == 1:
+            t['items'][0].append({'k': 'para', 'lines': [frag_line(rng) + '\n']})
+    return t
+
+
+def siblings4(rng, depth, first_para=False, in_quote=False, in_item=False):
+    out = []
+    for i in range(rng.randint(1, 3)):
+        t = frag_tree4(rng, depth, in_quote, first_in_item=(in_item and i == 0)) if depth < 3 else {'k': 'para', 'lines': [frag_line(rng) + '\n']}
+        if (i == 0 and first_para) or (out and out[-1]['k'] == 'list' and t['k'] == 'list') or (out and out[-1]['k'] == 'icode' and t['k'] == 'icode'):
+            t = {'k': 'para', 'lines': [frag_line(rng) + '\n']}
+        out.append(t)
+    return out
+
+
+def theorem_unit_tables(ctx):
+    """`C03_table_html_partial` on the real renderer: forests with tables and indented code blocks"""
+    rng4 = ctx.rng('fragment4')
+    forests4 = [siblings4(rng4, 0) for _ in range(ctx.budget(2500, 25000))]
+    opts4 = [{}, {'html_escape_double_quotes': True}, {'html_escape_single_quotes': True}]
+    res4 = common.driver_batch([{'op': 'c03.fragment4', 'forest': f, 'dq': bool(opts4[i % 3].get('html_escape_double_quotes')),
+                                 'sq': bool(opts4[i % 3].get('html_escape_single_quotes'))} for i, f in enumerate(forests4)],
+                               binary=common.PROPS_DRIVER)
+    n_ok = n_t = n_c = 0
+    for i, (f, r) in enumerate(zip(forests4, res4)):
+        if not (isinstance(r, dict) and r.get('ok')):
+            continue
+        n_ok += 1
+        ht, hc = any(_has(t, 'table') for t in f), any(_has(t, 'icode') for t in f)
+        n_t += ht
+        n_c += hc
+        try:
+            real = impl.parse_render('HtmlRenderer', opts4[i % 3], r['text'])[1]
+        except Exception as e:
+            real = {'raises': type(e).__name__}
+        ctx.compare('c03.theorem.tables', {'text': r['text'], 'options': opts4[i % 3]}, r['html'], real,
+                    kind=('table' if ht else '') + ('+icode' if hc else '') or 'neither')
+    ctx.notes.append('of %d generated forests with tables / indented code %d satisfy the hypothesis T4.oks (%d with a table, %d with an indented '
+                     'code block)' % (len(forests4), n_ok, n_t, n_c))
+
+
 def units(ctx):
+    theorem_unit_tables(ctx)
     theorem_unit_code(ctx)
     rng2 = ctx.rng('fragment2')
     forests2 = [siblings2(rng2, 0) for _ in range(ctx.budget(2500, 25000))]
